@@ -1,5 +1,9 @@
 /* environment of UdpEngine::connectDo: resolver, socket calls, tags.  Trusted base of unit udp_connect. */
 #define AF_UNSPEC 0
+#define AF_INET 2
+#define AF_INET6 10
+typedef struct { uint8_t b[16]; } sockaddr_in;      /* sizeof(sockaddr_in) == 16, sizeof(sockaddr_in6) == 28 on Linux */
+typedef struct { uint8_t b[28]; } sockaddr_in6;
 #define SOCK_DGRAM 2
 #define IPPROTO_UDP 17
 #define SOCK_NONBLOCK 04000
@@ -19,7 +23,7 @@ static inline iora_strid iora_gai_strerror(int rc) { return (iora_strid)rc; }
 
 /* ghost record of the connect environment */
 struct { unsigned gai_calls, free_calls; bool list_live; size_t ai_left; unsigned sock_calls; unsigned open_fds; int cur_fd; bool cur_connected; unsigned connect_calls;
-         unsigned addEpoll_calls; int addEpoll_fd; uint32_t addEpoll_ev; bool tag_set; Session *tag_sess; bool tag_isListener; int tag_fd; unsigned foreign_close; } GC;
+         unsigned addEpoll_calls; int addEpoll_fd; uint32_t addEpoll_ev; bool tag_set; Session *tag_sess; bool tag_isListener; int tag_fd; unsigned foreign_close; int af; } GC;
 addrinfo G_ai_node; sockaddr_storage G_ai_addr;
 #define G_ai_nodep ((addrinfo *)&G_ai_node)      /* by-value spellings for the loop invariant */
 #define G_ai_addrp ((sockaddr *)&G_ai_addr)
@@ -32,8 +36,8 @@ static inline int iora_sys_getaddrinfo(const char *host, const char *port, const
   if (rc != 0) return rc;
   if (nondet_bool()) { *res = NULL; return 0; }
   iora_ai_fill(); GC.ai_left = nondet_size_t(); IORA_ASSUME(GC.ai_left <= 0xffffffffu); GC.list_live = true; *res = &G_ai_node; return 0; }
-static inline addrinfo *iora_ai(addrinfo *p) { IORA_ASSERT(GC.list_live && p == &G_ai_node, "AI1 a node of the live getaddrinfo list (not freed, not NULL)"); return &G_ai_node; }
-static inline addrinfo *iora_ai_next(addrinfo *p) { IORA_ASSERT(GC.list_live && p == &G_ai_node, "AI1 a node of the live getaddrinfo list (not freed, not NULL)");
+static inline addrinfo *iora_ai(const addrinfo *p) { IORA_ASSERT(GC.list_live && p == &G_ai_node, "AI1 a node of the live getaddrinfo list (not freed, not NULL)"); return &G_ai_node; }
+static inline addrinfo *iora_ai_next(const addrinfo *p) { IORA_ASSERT(GC.list_live && p == &G_ai_node, "AI1 a node of the live getaddrinfo list (not freed, not NULL)");
   if (GC.ai_left == 0) return NULL; GC.ai_left--; iora_ai_fill(); return &G_ai_node; }
 static inline void iora_sys_freeaddrinfo(addrinfo *res) { IORA_ASSERT(GC.list_live && res == &G_ai_node, "AI2 freeaddrinfo gets the live list head, once"); IORA_BUMP(GC.free_calls); GC.list_live = false; }
 /* socket: -1 with errno, or a descriptor >= 0 that is then open until close() */
@@ -50,3 +54,5 @@ static inline int iora_sys_connect(int fd, const sockaddr *a, socklen_t l)
 static inline int iora_sys_getpeername(int fd, sockaddr *a, socklen_t *l) { (void)fd; sockaddr_storage n; *a = n; *l = (socklen_t)(nondet_u64() & 0x7f); return nondet_bool() ? 0 : -1; }
 static inline bool UdpEngine_addEpoll(UdpEngine *self, int fd, uint32_t ev) { (void)self; IORA_BUMP(GC.addEpoll_calls); GC.addEpoll_fd = fd; GC.addEpoll_ev = ev; return nondet_bool(); }
 static inline void iora_map1_tags_emplace(iora_map1_tags *m, int fd, Tag *t) { if (fd == GFD) m->has = true; GC.tag_set = true; GC.tag_fd = fd; GC.tag_sess = t->sess; GC.tag_isListener = t->isListener; }
+/* sockAf(fd): getsockname family of the listener socket - any value */
+static inline int UdpEngine_sockAf(UdpEngine *self, int fd) { (void)self; (void)fd; GC.af = nondet_int(); return GC.af; }
